@@ -49,8 +49,8 @@ def oracle_sweep(ctx, c, domain, drv_args, oracle, covered_by=()):
             continue
         fid, text = r
         hits += 1
-        if fid and fid in getattr(ctx, "confirmed", {}):
-            continue    # decide_standard already reported it (as KNOWN-FINDING or as VIOLATION)
+        if fid and (fid in getattr(ctx, "confirmed", {}) or fid in K.known_ids(ctx.pid)):
+            continue    # decide_standard already reported it (as KNOWN-FINDING or as VIOLATION) / a recorded finding
         if fid and fid in covered_by:
             continue
         rep.update({"correspondence": domain, "drv_args": list(drv_args), "oracle": text})
